@@ -179,6 +179,12 @@ def rk_sequences(ctx):
                 specs.append(((a, b), ch))
         for tri in ([VARIANTS[7], VARIANTS[1], VARIANTS[4]], [VARIANTS[8], VARIANTS[2], VARIANTS[6]]):
             specs.append((tuple(tri), ch))
+        # variants touching the first / last base of the sequence they are applied to (whole chromosome or chunk)
+        lo, hi = ch if ch else (0, len(REF))
+        for ev in ((hi - 1, hi, "T"), (hi - 1, hi, "TGA"), (hi - 3, hi, ""), (hi - 2, hi, "C"), (lo, lo + 1, "G"), (lo, lo + 2, ""), (lo, lo + 1, "GTT")):
+            specs.append(((ev,), ch))
+            specs.append(((VARIANTS[1], ev), ch))
+        specs.append((((lo, lo + 1, "G"), (hi - 1, hi, "T")), ch))
     ctx.r.floor("C13.RK", "alternative-sequence cases", len(specs), 60)
     from ..par import pmap
     results = pmap(_runner(ctx.repo, _seq_case), specs)
